@@ -32,6 +32,7 @@ fn main() {
       }
       println!("symbols: {}", sess::show_snapshot(&s.snapshot()));
     }
+    "stdlib" => { for n in corpus::stdlib_functions() { println!("{}", n); } }
     "check" => {
       let pid = &args[2];
       let prop = props::get(pid).unwrap_or_else(|| { eprintln!("unknown property {}", pid); std::process::exit(64) });
